@@ -99,6 +99,21 @@ pub fn run(args: &Args) {
     }
     let days: Vec<u32> = if args.thorough { (0..64).map(|k| 1 + k * 1040).chain([65535]).collect() } else { vec![1, 2, 59, 60, 19782, 19783, 47541, 65535] };
     for d in days { for m in 0..1440u32 { for acc in min_acc { emit(acc, "min", d, m, true, &mut tr, &mut res); } } }
+    // an accessor must not depend on what the thread computed before: boundary dates as the FIRST call of a fresh thread
+    // (a per-thread cache, a lazily initialised table)
+    for acc in ms_acc.iter().chain(min_acc.iter()) {
+        for d in [65535u32, 1, 65534, 2, 32768, 19782, 60, 59] {
+            let unit = if ms_acc.contains(acc) { "ms" } else { "min" };
+            let t = if unit == "ms" { 86_399_999u32 } else { 1439 };
+            let acc_s = acc.to_string();
+            let v = std::thread::spawn(move || call(&acc_s, d, t)).join().unwrap_or_else(|_| Err("thread panicked".into()));
+            res.case(fnv(format!("fresh{acc}{d}").as_bytes()), true);
+            let mut e = match v { Ok(v) => { let mut v = v; v["panic"] = json!(false); v }
+                                  Err(_) => json!({"panic": true, "none": true, "days": 0, "ms": 0, "y": 0, "mo": 0, "da": 0, "h": 0, "mi": 0, "s": 0, "ms3": 0, "subms": 0}) };
+            e["acc"] = json!(acc); e["unit"] = json!(unit); e["d"] = json!(d); e["t"] = json!(t); e["inrange"] = json!(true); e["fresh_thread"] = json!(true);
+            tr.ev(e);
+        }
+    }
     // out of range: only "returns without panicking"
     let bad_ms = [86_400_000u32, 86_400_001, 172_800_000, 2_147_483_647, 2_147_483_648, u32::MAX];
     for acc in ms_acc {
